@@ -11,6 +11,7 @@ import (
 	"context"
 	"errors"
 	"fmt"
+	"runtime"
 	"sort"
 	"strings"
 	"sync"
@@ -75,6 +76,9 @@ func main() {
 		if r.VariantHas("sweep") {
 			xsync.VerifSetHook(nil)
 			r.Cases("trig-sweep", r.Scale(24, 100), 1, func(c *vkit.Case) { trigSweep(c) })
+			if r.Thorough() {
+				r.Cases("trig-wrap32", 2, 1, func(c *vkit.Case) { trigWrap32(c) })
+			}
 			r.Floor("trigger sweep rounds", r.Table("trig-sweep", "rounds"), 300000)
 			return
 		}
@@ -83,6 +87,7 @@ func main() {
 		// PeriodicOrTrigger with a tiny interval under trigger load: the periodic runs must go on after
 		// the triggers stop (a mishandled timer Stop/Reset under trigger load leaves the timer dead).
 		r.Cases("pot-small", r.Scale(60, 600), 1, func(c *vkit.Case) { potSmall(c) })
+		r.Floor("racy rounds with GOMAXPROCS lowered during the group's life", r.Table("rounds", "GOMAXPROCS lowered during the group's life"), 50)
 		r.Floor("rounds whose parent context expired by a deadline", r.Table("parent context", "WithTimeout (expires by itself during the round)"), 100)
 		r.Floor("PeriodicOrTrigger rounds with a tiny interval under trigger load", r.Table("pot-small", "rounds"), 10)
 		r.Floor("registrations that raced the stop call", r.Table("races", "registration overlapping or after the stop call"), 200)
@@ -161,6 +166,20 @@ func runRound(c *vkit.Case) {
 	}
 	defer parentCancel()
 	r.Count("parent context", parentKind, 1)
+	// GOMAXPROCS may change during a group's life (cases run one at a time, so this is safe): the
+	// group is created under one value and registrations / the stop happen under another.
+	if !settle && rnd.Bool(0.15) {
+		orig := runtime.GOMAXPROCS(0)
+		hi := orig
+		if rnd.Bool(0.5) && orig < 64 {
+			hi = orig * 2
+		}
+		lo := []int{1, 2, 3}[rnd.Intn(3)]
+		runtime.GOMAXPROCS(hi)
+		defer runtime.GOMAXPROCS(orig)
+		time.AfterFunc(time.Duration(rnd.Range(5, 400))*time.Microsecond, func() { runtime.GOMAXPROCS(lo) })
+		r.Count("rounds", "GOMAXPROCS lowered during the group's life", 1)
+	}
 	grp := xsync.NewGroup(parent)
 	nReg := rnd.Range(2, 6)
 	stopKind := rnd.Intn(3) // 0 StopAndWait, 1 Stop then StopAndWait, 2 parent cancel then StopAndWait
